@@ -97,6 +97,8 @@ type typedRec struct {
 	F float64
 	B bool
 	L []string
+	u string // unexported fields: an insert naming them must be refused, not crash
+	n int64
 }
 
 type recorder struct {
@@ -180,6 +182,11 @@ func (x *executor) setup(backend string, shadow bool) error {
 	if err := put("tdb:live", dsd.JSON, []byte(`{"live":true}`)); err != nil {
 		return err
 	}
+	for i := 0; i < 8; i++ {
+		if err := put(comboKey(i), dsd.JSON, comboContent(i)); err != nil {
+			return err
+		}
+	}
 	if err := put("tdb:c1", dsd.CBOR, []byte{0xa1, 0x61, 0x61, 0x01}); err != nil {
 		return err
 	}
@@ -189,7 +196,7 @@ func (x *executor) setup(backend string, shadow bool) error {
 	if err := put("tdb:e0", dsd.JSON, []byte{}); err != nil {
 		return err
 	}
-	t := &typedRec{A: 5, S: "t", F: 1.5, B: true, L: []string{"l"}}
+	t := &typedRec{A: 5, S: "t", F: 1.5, B: true, L: []string{"l"}, u: "u", n: 1}
 	t.SetKey("tdb:t1")
 	if err := priv.Put(t); err != nil {
 		return err
